@@ -765,7 +765,46 @@ func runC08(c *Ctx) {
 	}
 	c.docBytesRule("C08.P3")
 	c.rawServiceRule("C08.P3")
-	c.Min("C08.P3", 9+3+2+3+7)
+	// the document the caller supplies reaches the request as it is: member values never take the place of a format
+	// string (a '%' in a custom member), and the update-patch builders hand the caller's strings on as they are — the
+	// libraries their call tree reaches are the JSON codec, fmt, errors and module code (a URI re-serialised by net/url
+	// is not the URI the document holds)
+	c.patchFormatConstRule("C08.P3")
+	if cup := c.Fn(pST, "createUpdatePatches"); cup != nil {
+		ext := map[string]bool{}
+		for _, g := range c.reachableModuleFuncs([]*ssa.Function{cup}) {
+			if !strings.HasPrefix(pkgPathOf(g), modPkg+pST) && !strings.HasSuffix(pkgPathOf(g), "/patch") {
+				continue
+			}
+			forEachInstr(g, func(in ssa.Instruction) {
+				cl, isC := in.(*ssa.Call)
+				if !isC {
+					return
+				}
+				h := cl.Call.StaticCallee()
+				if h == nil || inModule(h) {
+					return
+				}
+				if o := h.Origin(); o != nil {
+					h = o
+				}
+				ext[pkgPathOf(h)] = true
+			})
+		}
+		var foreign []string
+		for p := range ext {
+			switch {
+			case p == "encoding/json", p == "fmt", p == "errors", p == "sort", p == "slices", p == "maps", p == "strconv", p == "strings", p == "bytes":
+			case strings.HasPrefix(p, "github.com/trustbloc/did-go/"), strings.HasPrefix(p, "github.com/trustbloc/kms-go/"):
+				// (the model types' own JSON encoders)
+			default:
+				foreign = append(foreign, p)
+			}
+		}
+		sort.Strings(foreign)
+		c.Check("C08.P3", "update-patches:values-handed-on-as-they-are", len(foreign) == 0, cup.Pos(), fmt.Sprintf("libraries reached while building update patches besides the JSON codec / fmt / errors / strings: %v", foreign))
+	}
+	c.Min("C08.P3", 9+3+2+3+7+2)
 
 	// ---- O1 remove-before-add
 	cup := c.Fn(pST, "createUpdatePatches")
